@@ -196,6 +196,52 @@ class Provenance:
                     self._eval(fn, c, env, depth, stack)
         return UNKNOWN
 
+    def _ctor_fields(self, cls: ClassInfo, init: FunctionInfo, bound: dict, hops: int = 0) -> dict:
+        """fields an __init__ assigns from its parameters (names or attribute chains of them), following
+        super().__init__(...) / Base.__init__(self, ...) into the inherited constructors"""
+        out: dict[str, Term] = {}
+        for st in self._stmts(init.node.body):
+            if isinstance(st, (ast.Assign, ast.AnnAssign)) and st.value is not None:
+                tg = st.targets[0] if isinstance(st, ast.Assign) else st.target
+                if isinstance(tg, ast.Attribute) and isinstance(tg.value, ast.Name) and tg.value.id == "self":
+                    v = self._term_of(init, st.value, bound)
+                    if v.kind != "unknown":
+                        out[tg.attr] = v
+                    else:
+                        out.pop(tg.attr, None)
+            elif isinstance(st, ast.Expr) and isinstance(st.value, ast.Call) and isinstance(st.value.func, ast.Attribute) \
+                    and st.value.func.attr == "__init__" and hops < 6:
+                c = st.value
+                base = c.func.value
+                parent: Optional[FunctionInfo] = None
+                args = list(c.args)
+                if isinstance(base, ast.Call) and isinstance(base.func, ast.Name) and base.func.id == "super":
+                    owner = init.cls or cls
+                    mro = self.prog.mro(cls)
+                    names = [k.fullname for k in mro]
+                    start = names.index(owner.fullname) + 1 if owner.fullname in names else 1
+                    for k in mro[start:]:
+                        g = k.methods.get("__init__") if hasattr(k, "methods") else None
+                        if g is not None:
+                            parent = g
+                            break
+                elif isinstance(base, ast.Name) and args and isinstance(args[0], ast.Name) and args[0].id == "self":
+                    for k in self.prog.mro(cls)[1:]:
+                        if k.name == base.id:
+                            parent = k.methods.get("__init__") if hasattr(k, "methods") else None
+                            break
+                    args = args[1:]
+                if parent is None or any(isinstance(a, ast.Starred) for a in args):
+                    continue
+                pb: dict[str, Term] = {}
+                for p_, a in zip(parent.params[1:], args):
+                    pb[p_] = self._term_of(init, a, bound)
+                for k in c.keywords:
+                    if k.arg:
+                        pb[k.arg] = self._term_of(init, k.value, bound)
+                out.update(self._ctor_fields(cls, parent, pb, hops + 1))
+        return out
+
     def _rooted_in(self, t: Term, root: str) -> bool:
         return t.kind == "path" and t.path and t.path[0] == root
 
@@ -231,10 +277,7 @@ class Provenance:
             for k, v in kws.items():
                 bound[k] = v
             if init is not None:
-                for a_ in walk_local(init.node):
-                    if isinstance(a_, ast.Assign) and isinstance(a_.targets[0], ast.Attribute) and isinstance(a_.targets[0].value, ast.Name) \
-                            and a_.targets[0].value.id == "self" and isinstance(a_.value, ast.Name) and a_.value.id in bound:
-                        fields.append((a_.targets[0].attr, bound[a_.value.id]))
+                fields = list(self._ctor_fields(cls, init, bound).items())
                 # the constructor body itself runs during the mapping
                 self._visit(init, {"self": Term("obj", cls=cls.fullname, fields=tuple(fields)), **bound}, depth + 1, stack + (init.qualname,))
             else:
